@@ -1,7 +1,8 @@
 """C17 — type annotations do not change execution or serialization.
 
-Metamorphic twins on the real Interpreter: one program over the comb fragment (PUSH, GET n, UPDATE n, PAIR n,
-UNPAIR n, CAR, CDR, PAIR, UNPAIR, COMPARE, PACK, DUP, SWAP, DROP) is run three times — with its type arguments
+Metamorphic twins on the real Interpreter: one program over the fragment (PUSH, UNPACK, GET n, UPDATE n, PAIR n,
+UNPAIR n, CAR, CDR, PAIR, UNPAIR, COMPARE, EQ, PACK, DUP, SWAP, DROP, SOME, NONE, LEFT, RIGHT, UNIT, IF, IF_NONE,
+IF_LEFT, DIP n) is run three times — with its type arguments
 annotated (field and type annotations on every position, including the inner pairs of right combs),
 re-annotated with other names, and stripped.
 (B) the property's oracle: the three runs must give identical erased stacks (value + type without annotations),
@@ -103,9 +104,23 @@ def text(m):
     return parts[0] if len(parts) == 1 else '(' + ' '.join(parts) + ')'
 
 
+TYPED = ('PUSH', 'UNPACK', 'NONE', 'LEFT', 'RIGHT')     # instructions carrying a type argument at index 1
+BRANCHY = ('IF', 'IF_NONE', 'IF_LEFT')
+
+
+def code_text(body):
+    return '{ ' + ' ; '.join(instr_text(i) for i in body) + ' }' if body else '{}'
+
+
 def instr_text(i):
     if i[0] == 'PUSH':
         return f'PUSH {text(i[1])} {text(i[2])}'
+    if i[0] in ('UNPACK', 'NONE', 'LEFT', 'RIGHT'):
+        return f'{i[0]} {text(i[1])}'
+    if i[0] in BRANCHY:
+        return f'{i[0]} {code_text(i[1])} {code_text(i[2])}'
+    if i[0] == 'DIP':
+        return f'DIP {i[1]} {code_text(i[2])}'
     return ' '.join(str(x) for x in i)
 
 
@@ -157,15 +172,28 @@ def c_val(x):
     raise lib.InternalError(f'unexpected value {cls.__name__}')
 
 
-def c_instr(i):
+def c_tyexpr(e):
     from pytezos.michelson.types.base import MichelsonType
+    return c_ty(MichelsonType.match(e))
+
+
+def c_code(body):
+    return '(iseq ' + clist(c_instr(i) for i in body) + ')'
+
+
+def c_instr(i):
     if i[0] == 'PUSH':
-        v = MichelsonType.match(i[1]).from_micheline_value(i[2])
-        return f'(IPush {c_val(v)})'
+        return f'(IPushT {c_tyexpr(i[1])} {lib.cnode(i[2])})'
+    if i[0] in ('UNPACK', 'NONE', 'LEFT', 'RIGHT'):
+        return '(' + {'UNPACK': 'IUnpack', 'NONE': 'INone', 'LEFT': 'ILeft', 'RIGHT': 'IRight'}[i[0]] + ' ' + c_tyexpr(i[1]) + ')'
+    if i[0] in BRANCHY:
+        return '(' + {'IF': 'IIf', 'IF_NONE': 'IIfNone', 'IF_LEFT': 'IIfLeft'}[i[0]] + f' {c_code(i[1])} {c_code(i[2])})'
+    if i[0] == 'DIP':
+        return f'(IDip {cnat(i[1])} {c_code(i[2])})'
     if i[0] in ('GET', 'UPDATE', 'PAIR', 'UNPAIR') and len(i) == 2:
         return '(' + {'GET': 'IGet', 'UPDATE': 'IUpdate', 'PAIR': 'IPairN', 'UNPAIR': 'IUnpairN'}[i[0]] + ' ' + cnat(i[1]) + ')'
     return {'CAR': 'ICar', 'CDR': 'ICdr', 'PAIR': 'IPair', 'UNPAIR': 'IUnpair', 'COMPARE': 'ICompare', 'PACK': 'IPack',
-            'DUP': 'IDup', 'SWAP': 'ISwap', 'DROP': 'IDrop'}[i[0]]
+            'DUP': 'IDup', 'SWAP': 'ISwap', 'DROP': 'IDrop', 'SOME': 'ISome', 'UNIT': 'IUnit', 'EQ': 'IEq'}[i[0]]
 
 
 def strip_ty(e):
@@ -187,7 +215,7 @@ def run_prog(prog):
         return code, None, ('fail',)
     items = list(itp.stack.items)
     obs = ('ok', [(lib.canon_micheline(x.to_micheline_value(mode='readable')), strip_ty(type(x).as_micheline_expr()),
-                   x.pack().hex()) for x in items])
+                   x.pack().hex(), x.pack(legacy=True).hex()) for x in items])
     return code, items, obs
 
 
@@ -202,68 +230,138 @@ def has_packed(x):
 
 
 def gen_program(rng):
-    """returns a list of abstract instructions; PUSH carries (skeleton, value) to be annotated per twin"""
+    """returns a list of abstract instructions (type arguments are skeletons, annotated per twin); generated by probing a real
+    interpreter instruction by instruction, so that most programs are well-shaped"""
     from pytezos.michelson.repl import Interpreter
-    from pytezos.michelson.types import PairType
+    from pytezos.michelson.types import BoolType, IntType, OptionType, OrType, PairType
     itp = Interpreter()
+
+    def probe(i):
+        lib.call(itp.execute, instr_text(concretize1(rng, i, 'some')))
+
+    def junk():
+        return rng.choice([[], [('DROP',)], [('UNIT',)], [('DUP',)], [('PUSH', ('p', 'int'), {'int': '7'})]])
+
+    def gen_ops(out, budget, level):
+        def emit(i):
+            out.append(i)
+            probe(i)
+
+        def push(sk, v=None):
+            emit(('PUSH', sk, gen_value(rng, sk) if v is None else v))
+        for _ in range(budget):
+            items = itp.stack.items
+            top = items[0] if items else None
+            depth = len(items)
+            r = rng.random()
+            if isinstance(top, BoolType) and r < 0.7:
+                taken = bool(top.value)
+                lib.call(itp.execute, 'DROP')
+                body = []
+                gen_ops(body, rng.randrange(0, 3), level + 1)
+                out.append(('IF', body, junk()) if taken else ('IF', junk(), body))
+            elif isinstance(top, OptionType) and r < 0.6 and level < 3:
+                is_none = top.item is None
+                lib.call(itp.execute, 'IF_NONE {} {}')
+                body = []
+                gen_ops(body, rng.randrange(0, 3), level + 1)
+                out.append(('IF_NONE', body, junk()) if is_none else ('IF_NONE', junk(), body))
+            elif isinstance(top, OrType) and r < 0.6 and level < 3:
+                is_left = top.is_left()
+                lib.call(itp.execute, 'IF_LEFT {} {}')
+                body = []
+                gen_ops(body, rng.randrange(0, 3), level + 1)
+                out.append(('IF_LEFT', body, junk()) if is_left else ('IF_LEFT', junk(), body))
+            elif isinstance(top, IntType) and type(top).prim == 'int' and r < 0.5:
+                emit(('EQ',))
+            elif r < 0.08 and depth >= 2 and level < 2:
+                n = rng.choice([1, 1, 2, depth - 1])
+                held = items[:n]
+                del items[:n]
+                body = []
+                gen_ops(body, rng.randrange(1, 3), level + 1)
+                itp.stack.items[0:0] = held
+                out.append(('DIP', n, body))
+            elif r < 0.16 and top is not None:
+                k2 = rng.random()
+                if k2 < 0.4:
+                    emit(('SOME',))
+                elif k2 < 0.7:
+                    emit((rng.choice(['LEFT', 'RIGHT']), gen_leaf(rng, 1) if rng.random() < 0.6 else gen_comb(rng, 1, 2)))
+                else:
+                    emit(('NONE', gen_comb(rng, 1, rng.choice([2, 3]))))
+            elif isinstance(top, PairType):
+                k = len(list(top.iter_comb()))
+                if r < 0.32:
+                    emit(('GET', rng.choice([0, 1, 2, 3, 2 * k - 2, 2 * k - 1, 2 * k, rng.randrange(0, 2 * k + 2)])))
+                elif r < 0.50:
+                    el = gen_leaf(rng, 1) if rng.random() < 0.6 else gen_comb(rng, 1, rng.choice([2, 3]))
+                    push(el)
+                    emit(('UPDATE', rng.choice([0, 1, 2, 3, 4, 2 * k - 2, 2 * k - 1, rng.randrange(0, 2 * k + 1)])))
+                elif r < 0.62:
+                    emit(('UNPAIR', rng.choice([2, 2, 3, k, k, max(2, k - 1), k + 1, 1])))
+                elif r < 0.70:
+                    emit((rng.choice(['CAR', 'CDR', 'UNPAIR']),))
+                elif r < 0.80 and not has_packed(top):
+                    emit(('PACK',))
+                elif r < 0.88:
+                    emit(('DUP',))
+                else:
+                    push(gen_leaf(rng, 1))
+                    emit((rng.choice(['PAIR', 'SWAP']),))
+            else:
+                if r < 0.36 and depth >= 2:
+                    emit(('PAIR', rng.choice([2, 2, 3, depth, depth + 1, 1])))
+                elif r < 0.48 and depth >= 2:
+                    emit((rng.choice(['PAIR', 'SWAP', 'DROP']),))
+                elif r < 0.58 and top is not None and not has_packed(top):
+                    emit(('PACK',))
+                elif r < 0.70:
+                    # PACK a known value and read it back at the same (or another) type
+                    sk = gen_comb(rng, 1, rng.choice([2, 3, 4, 5])) if rng.random() < 0.8 else gen_leaf(rng, 1)
+                    push(sk)
+                    emit(('PACK',))
+                    emit(('UNPACK', sk if rng.random() < 0.8 else gen_comb(rng, 1, rng.choice([2, 3, 4]))))
+                elif r < 0.86:
+                    sk = gen_comb(rng, 1, rng.choice([2, 3, 4]))
+                    v = gen_value(rng, sk)
+                    push(sk, v)
+                    push(sk, near_value(rng, sk, v))
+                    emit(('COMPARE',))
+                else:
+                    push(gen_comb(rng, 1, rng.choice([2, 3, 4, 5])))
     prog = []
-
-    def emit(i):
-        prog.append(i)
-        conc = ('PUSH', annotate(rng, i[1], 'some'), i[2]) if i[0] == 'PUSH' else i
-        lib.call(itp.execute, instr_text(conc))
-
-    def push(sk, v=None):
-        emit(('PUSH', sk, gen_value(rng, sk) if v is None else v))
     n = rng.choice([2, 3, 3, 4, 4, 5, 6])
-    push(gen_comb(rng, 2, n))
-    for _ in range(rng.randrange(1, 6)):
-        top = itp.stack.items[0] if itp.stack.items else None
-        depth = len(itp.stack.items)
-        r = rng.random()
-        if isinstance(top, PairType):
-            k = len(list(top.iter_comb()))
-            if r < 0.22:
-                emit(('GET', rng.choice([0, 1, 2, 3, 2 * k - 2, 2 * k - 1, 2 * k, rng.randrange(0, 2 * k + 2)])))
-            elif r < 0.44:
-                el = gen_leaf(rng, 1) if rng.random() < 0.6 else gen_comb(rng, 1, rng.choice([2, 3]))
-                push(el)
-                emit(('UPDATE', rng.choice([0, 1, 2, 3, 4, 2 * k - 2, 2 * k - 1, rng.randrange(0, 2 * k + 1)])))
-            elif r < 0.58:
-                emit(('UNPAIR', rng.choice([2, 2, 3, k, k, max(2, k - 1), k + 1, 1])))
-            elif r < 0.66:
-                emit((rng.choice(['CAR', 'CDR', 'UNPAIR']),))
-            elif r < 0.78 and not has_packed(top):
-                emit(('PACK',))
-            elif r < 0.88:
-                emit(('DUP',))
-            else:
-                sk = gen_leaf(rng, 1)
-                push(sk)
-                emit((rng.choice(['PAIR', 'SWAP']),))
-        else:
-            if r < 0.3 and depth >= 2:
-                emit(('PAIR', rng.choice([2, 2, 3, depth, depth + 1, 1])))
-            elif r < 0.45 and depth >= 2:
-                emit((rng.choice(['PAIR', 'SWAP', 'DROP']),))
-            elif r < 0.6 and top is not None and not has_packed(top):
-                emit(('PACK',))
-            elif r < 0.8:
-                sk = gen_comb(rng, 1, rng.choice([2, 3, 4]))
-                v = gen_value(rng, sk)
-                push(sk, v)
-                push(sk, near_value(rng, sk, v))
-                emit(('COMPARE',))
-            else:
-                push(gen_comb(rng, 1, rng.choice([2, 3, 4, 5])))
+    sk = gen_comb(rng, 2, n)
+    first = ('PUSH', sk, gen_value(rng, sk))
+    prog.append(first)
+    probe(first)
+    gen_ops(prog, rng.randrange(1, 7), 0)
     if rng.random() < 0.12:
-        op = rng.choice(['CAR', 'CDR', 'GET', 'UNPAIR', 'COMPARE', 'UPDATE', 'PAIR'])
-        emit((op, rng.randrange(0, 9)) if op in ('GET', 'UPDATE', 'PAIR', 'UNPAIR') and (op in ('GET', 'UPDATE') or rng.random() < 0.5) else (op,))
+        op = rng.choice(['CAR', 'CDR', 'GET', 'UNPAIR', 'COMPARE', 'UPDATE', 'PAIR', 'EQ', 'IF_NONE', 'IF_LEFT', 'SOME'])
+        if op in ('IF_NONE', 'IF_LEFT'):
+            prog.append((op, [], []))
+        else:
+            prog.append((op, rng.randrange(0, 9)) if op in ('GET', 'UPDATE', 'PAIR', 'UNPAIR') and (op in ('GET', 'UPDATE') or rng.random() < 0.5) else (op,))
     return prog
 
 
+def concretize1(rng, i, style):
+    if i[0] in TYPED:
+        return (i[0], annotate(rng, i[1], style)) + tuple(i[2:])
+    if i[0] in BRANCHY:
+        return (i[0], concretize(rng, i[1], style), concretize(rng, i[2], style))
+    if i[0] == 'DIP':
+        return ('DIP', i[1], concretize(rng, i[2], style))
+    return i
+
+
 def concretize(rng, prog, style):
-    return [('PUSH', annotate(rng, i[1], style), i[2]) if i[0] == 'PUSH' else i for i in prog]
+    return [concretize1(rng, i, style) for i in prog]
+
+
+def n_instr(prog):
+    return sum(1 + (n_instr(i[1]) + n_instr(i[2]) if i[0] in BRANCHY else n_instr(i[2]) if i[0] == 'DIP' else 0) for i in prog)
 
 
 FIXED = [  # witnesses of defects #10 and #34 (fixed in /repo): replayed on every run
@@ -299,8 +397,9 @@ def run(ctx: lib.Ctx) -> None:
     T = {}
     ctx.extra['phase_seconds'] = T
     rng = ctx.rng
-    ctx.rule = ('programs over the comb fragment generated stack-shape-directed (the next instruction is chosen from the shape of the real '
-                'interpreter stack; indices around the comb length; one deliberately ill-typed tail in ~12%); every program is run as three twins '
+    ctx.rule = ('programs over the fragment PUSH/UNPACK/GET n/UPDATE n/PAIR n/UNPAIR n/CAR/CDR/PAIR/UNPAIR/COMPARE/EQ/PACK/DUP/SWAP/DROP/SOME/NONE/LEFT/RIGHT/'
+                'UNIT/IF/IF_NONE/IF_LEFT/DIP n generated stack-shape-directed (the next instruction is chosen from the shape of the real '
+                'interpreter stack, taken branches are generated by probing, indices around the comb length; one deliberately ill-typed tail in ~12%); every program is run as three twins '
                 '(annotated ~90% of positions incl. inner comb pairs, partially annotated, stripped). non-trivial = program with >= 2 '
                 'instructions after the first PUSH whose annotated twin has >= 1 annotation; distinct = distinct program text')
     # tables: prim tags used by the model
@@ -319,7 +418,7 @@ def run(ctx: lib.Ctx) -> None:
             ctx.violation(f'fixed defect is back: {what}', {'annotated': annotated, 'stripped': plain, 'annotated_result': a, 'stripped_result': b,
                                                            'repro': f'Interpreter().execute({annotated!r}) vs Interpreter().execute({plain!r})'}, found=True)
             violations += 1
-    cases, meta = [], []
+    cases, meta, mcases, mmeta = [], [], [], []
     nprog = ctx.n(200, 3000)
     for _ in range(nprog):
         prog = gen_program(rng)
@@ -336,8 +435,13 @@ def run(ctx: lib.Ctx) -> None:
                 lit_out = 'Reject' if items is None else '(Ok ' + clist(c_val(x) for x in items) + ')'
                 cases.append((lit_in, lit_out))
                 meta.append((code, obs))
+                if items:
+                    for x in items[:2]:
+                        if not has_packed(x) and len(mcases) < ctx.n(300, 3000):
+                            mcases.append((c_val(x), clist(lib.cnode(x.to_micheline_value(mode=m)) for m in ('readable', 'optimized', 'legacy_optimized'))))
+                            mmeta.append(code)
             n_ann = code.count('%') + code.count(':')
-            ctx.case(code, nontrivial=len(conc) >= 3 and (style == 'none' or n_ann > 0), kind=f'{style}:{obs[0]}:{prog[-1][0]}',
+            ctx.case(code, nontrivial=n_instr(conc) >= 3 and (style == 'none' or n_ann > 0), kind=f'{style}:{obs[0]}:{prog[-1][0]}',
                      sample={'code': code, 'result': repr(obs)[:300]})
         # (B) twins agree
         base = twins[2][4]
@@ -350,6 +454,15 @@ def run(ctx: lib.Ctx) -> None:
     ctx.extra['programs'] = nprog
     T['interpreter'] = round(time.time() - t0, 1)
     bad = ctx.coq_mismatches('comb', IMPORTS, 'run_prog', 'out_eqb', 'list (cinstr ann)', 'result (list aval)', cases, shard=70)
+    mbad = ctx.coq_mismatches('mich', IMPORTS, 'fun v => [to_mich Readable v; to_mich Optimized v; to_mich LegacyOptimized v]',
+                              'list_eqb node_eqb', 'aval', 'list node', mcases, shard=100)
+    ctx.extra['rendering_cases'] = len(mcases)
+    if mbad and violations == 0 and not bad:
+        ctx.violation('to_micheline_value no longer corresponds to the model (readable / optimized / legacy_optimized rendering)',
+                      {'correspondence': 'C17/MichelsonType.to_micheline_value vs Michelson.Comb.to_mich', 'code_producing_the_value': mmeta[mbad[0]],
+                       'value': mcases[mbad[0]][0][:1500], 'implementation': mcases[mbad[0]][1][:1500],
+                       'model': ctx.coq_eval(IMPORTS, f'let v := {mcases[mbad[0]][0]} in [to_mich Readable v; to_mich Optimized v; to_mich LegacyOptimized v]'),
+                       'disagreements': len(mbad)}, found=False)
     T['coq'] = round(time.time() - t0, 1)
     if bad and violations == 0:
         code, obs = meta[bad[0]]
